@@ -100,3 +100,17 @@ Fixpoint resolve (fuel : nat) (t : node) : option value :=
   | O => None
   | S f => resolve_step (resolve f) t
   end.
+
+(* ------------------------------------------------------------------ *)
+(* "the same value": sequences element-wise, maps key by key under      *)
+(* [vlookup] (entry order and shadowed entries do not matter).  This is *)
+(* what "the JSON conversion equals the resolved document" means.       *)
+(* ------------------------------------------------------------------ *)
+Inductive orel {A B : Type} (R : A -> B -> Prop) : option A -> option B -> Prop :=
+| orel_none : orel R None None
+| orel_some a b : R a b -> orel R (Some a) (Some b).
+
+Inductive veq : value -> value -> Prop :=
+| veq_s s : veq (VS s) (VS s)
+| veq_l l l' : Forall2 veq l l' -> veq (VL l) (VL l')
+| veq_m es es' : (forall k, orel veq (vlookup k es) (vlookup k es')) -> veq (VM es) (VM es').
